@@ -59,7 +59,9 @@ def gen_dataset(rng, max_depth=3, types=None):
                 continue
             size = rng.randint(1, 4)
             node.dims.append((dn, size))
-            scope[dn] = (prefix + "/" + dn if prefix else "/" + dn, size)
+            # every declaration of every enclosing group stays referable by its fully qualified name, also when an inner
+            # group declares the same short name again
+            scope[(prefix, dn)] = (prefix + "/" + dn if prefix else "/" + dn, size)
         nmem = rng.randint(1, 3)
         used = set()
         for _ in range(nmem):
@@ -83,7 +85,7 @@ def gen_dataset(rng, max_depth=3, types=None):
                     if anon:
                         dims.append(("anon", rng.randint(1, 3)))
                     else:
-                        fq, size = scope[rng.choice(sorted(scope))]
+                        fq, size = scope[rng.choice(sorted(scope))]   # keys (group prefix, short name)
                         dims.append(("named", fq, size))
                 t = rng.choice(types)
                 n = int(np.prod([d[-1] for d in dims])) if dims else 1
